@@ -313,8 +313,38 @@ def r10d(run):
                             "the verdict or the value between the two modes", node=sub)
 
 
+def r10e(run, funcs, rule="R10e"):
+    """errors are handed to the context the owner flushes: the receiver of handle_error / collect_tmp_error is the
+    function's own `context` (parameter or its `context or ...` default), never a child created by enter()"""
+    total = 0
+    for f in funcs:
+        fa = analysis(f)
+        for n, c in fa.all_calls():
+            if call_attr(c) not in ("handle_error", "collect_tmp_error") or not isinstance(c.func, ast.Attribute):
+                continue
+            recv = c.func.value
+            if isinstance(recv, ast.Name) and recv.id == "self":
+                continue
+            total += 1
+            ok = False
+            why = f"receiver `{unparse(recv)}`"
+            if isinstance(recv, ast.Name):
+                os_ = prov(fa).of_name(n, recv.id)
+                child = [o for o in os_ if o.kind == "with" and "enter" in o.text]
+                ok = not child and bool(os_) and all(
+                    o.kind == "param" or (o.kind in ("call", "attr") and "enter" not in o.text) for o in os_)
+                if child:
+                    why = f"`{recv.id}` is the child context created by `{child[0].text[:40]}`"
+            run.check(rule, f, f"`{unparse(c)[:50]}` reports to the context its owner flushes", ok,
+                      construct=f"error handed to a child context: {unparse(c)[:60]}",
+                      message=f"{f.qualname}: `{unparse(c)[:70]}` records the error in a context nobody flushes ({why})",
+                      necessity="with collect_errors=True the error is appended to a throw-away list: the invalid item is "
+                                "accepted (and a decorated function's body runs with the raw value)", node=c)
+    run.floor(rule, "error hand-off sites", total, 30)
+
+
 def check(run):
-    run.rules_run += ["R10-policy", "R10a", "R10b", "R10c", "R10d"]
+    run.rules_run += ["R10-policy", "R10a", "R10b", "R10c", "R10d", "R10e"]
     run.explain("C10: the may-return model of handle_error is validated against its source; (R10a) at each of the "
                 "non-forced handle_error sites the code after the call does not read variables whose only binding "
                 "is the failed try body (stale/unbound), nor index past a fallen-through range check; (R10b) every "
@@ -328,3 +358,10 @@ def check(run):
     r10b(run, funcs)
     r10c(run)
     r10d(run)
+    r10e(run, c04.in_scope_functions(run))
+    # shared clauses that are necessary for C10 as well
+    from . import c06, c07
+    pd, A, B = c06.siblings(run)
+    run.rules_run += ["R06d", "R07e"]
+    c06.r06d(run, A, B)
+    c07.r07e(run, c07.schema_class(run))
